@@ -143,13 +143,52 @@ def match_known(prop, sig):
 # ---------------------------------------------------------------------------
 # minimisation
 
+def in_clean_child(fn, *args, timeout=300):
+    """Run fn(*args) in a forked child of this process and return its result.
+
+    The driver process itself never executes a case, so every child starts from
+    the same pristine interpreter state (beanquery imported, nothing executed):
+    state that the code under test leaks between executions in one process
+    (module- or class-level caches) cannot travel from one candidate to the next.
+    Returns ('ok', value) or ('exc', text)."""
+    import pickle
+    r, w = os.pipe()
+    pid = os.fork()
+    if pid == 0:
+        code = 0
+        try:
+            os.close(r)
+            faulthandler.dump_traceback_later(timeout, exit=True)
+            try:
+                res = ('ok', fn(*args))
+            except BaseException as e:
+                res = ('exc', f'{type(e).__name__}: {e}\n{traceback.format_exc()}')
+            with os.fdopen(w, 'wb') as f:
+                pickle.dump(res, f)
+        except BaseException:
+            code = 3
+        finally:
+            os._exit(code)
+    os.close(w)
+    with os.fdopen(r, 'rb') as f:
+        data = f.read()
+    os.waitpid(pid, 0)
+    if not data:
+        return ('exc', 'child died without a result')
+    return pickle.loads(data)
+
+
+def _execute_case(mod, case, keep_log):
+    core.reset_process_state()
+    out = mod.execute(case, keep_log=keep_log)
+    out['case_after'] = case      # execute may record decisions into the case
+    return out
+
+
 def fails_with(mod, case, sig):
-    """Execute a candidate; true iff it shows a violation of the same class."""
-    try:
-        core.reset_process_state()
-        out = mod.execute(case, keep_log=False)
-        core.reset_process_state()
-    except BaseException:
+    """Execute a candidate in a clean child; true iff it shows a violation of the same class."""
+    st, out = in_clean_child(_execute_case, mod, case, False)
+    if st != 'ok':
         return False
     return any(v['sig'] == sig for v in out['violations'])
 
@@ -244,9 +283,9 @@ def minimise(mod, case, sig, budget=400):
 
 def write_replay(mod, case, violation, tag):
     os.makedirs(REPLAY_DIR, exist_ok=True)
-    core.reset_process_state()
-    out = mod.execute(case, keep_log=True)
-    core.reset_process_state()
+    st, out = in_clean_child(_execute_case, mod, case, True)
+    if st != 'ok':
+        raise core.HarnessError(f'replay execution failed: {out}')
     v = next((x for x in out['violations'] if x['sig'] == violation['sig']), violation)
     doc = {
         'property': mod.PROP,
@@ -300,12 +339,34 @@ def digests_for(mod, master, tier, runs):
     return out
 
 
+def _digest_one(mod, master, tier, r):
+    _, o = run_one(mod, master, tier, r)
+    return o['digest']
+
+
+def digests_clean(mod, master, tier, runs):
+    """Each run in its own clean child."""
+    out = {}
+    for r in runs:
+        st, d = in_clean_child(_digest_one, mod, master, tier, r)
+        if st != 'ok':
+            raise core.HarnessError(f'self-test run {r} failed: {d}')
+        out[r] = d
+    return out
+
+
 def determinism_selftest(mod, master, tier, runs, pool_digests):
-    """Each of `runs` executed twice in this process (different batch
-    positions), once by a pool worker, and once in a fresh interpreter with a
-    different PYTHONHASHSEED."""
-    a = digests_for(mod, master, tier, runs)
-    b = digests_for(mod, master, tier, list(reversed(runs)))
+    """Each of `runs` executed twice in clean forked children, once in sequence with
+    others inside one child (different batch position), once by a pool worker (yet
+    another position), and once in a fresh interpreter with a different
+    PYTHONHASHSEED.  Returns (ok, report); report['position_dependent'] is set when
+    only the in-sequence executions disagree - the signature of state that the code
+    under test leaks from one execution to the next inside a process."""
+    a = digests_clean(mod, master, tier, runs)
+    b = digests_clean(mod, master, tier, list(reversed(runs)))
+    st, seq = in_clean_child(digests_for, mod, master, tier, runs)
+    if st != 'ok':
+        return False, {'error': 'in-sequence self-test failed: ' + str(seq)[-1500:]}
     env = dict(os.environ)
     env['PYTHONHASHSEED'] = '987'
     env['VERIF_SEED'] = str(master)
@@ -315,16 +376,20 @@ def determinism_selftest(mod, master, tier, runs, pool_digests):
     if p.returncode != 0:
         return False, {'error': 'fresh interpreter failed: ' + (p.stdout + p.stderr)[-2000:]}
     c = {int(k): v for k, v in json.loads(p.stdout.strip().splitlines()[-1]).items()}
-    mism = []
+    mism, posdep = [], []
     for r in runs:
-        vals = {a[r], b[r], c.get(r)}
-        pd = pool_digests.get(r)
-        if pd is not None:
-            vals = {v[:16] for v in vals} | {pd}
-        if len(vals) != 1:
+        isolated = {a[r][:16], b[r][:16], (c.get(r) or '')[:16]}
+        if len(isolated) != 1:
             mism.append(r)
-    return not mism, {'runs_checked': len(runs), 'executions_each': 3 + (1 if pool_digests else 0),
-                      'fresh_interpreter_hashseed': 987, 'mismatching_runs': mism}
+            continue
+        positioned = {seq[r][:16]}
+        if pool_digests.get(r) is not None:
+            positioned.add(pool_digests[r])
+        if positioned - isolated:
+            posdep.append(r)
+    return not (mism or posdep), {'runs_checked': len(runs), 'executions_each': 4 + (1 if pool_digests else 0),
+                                  'fresh_interpreter_hashseed': 987, 'mismatching_runs': mism,
+                                  'position_dependent_runs': posdep, 'position_dependent': bool(posdep and not mism)}
 
 
 # ---------------------------------------------------------------------------
@@ -376,25 +441,34 @@ def run_batch(prop, tier, master, nruns, workers, wall_cap_s, selftest_n):
     # determinism self-test
     st_runs = [r for r in range(0, selftest_n * 7, 7) if r < nruns]
     ok, st = determinism_selftest(mod, master, tier, st_runs, pool_digests) if st_runs else (True, {})
-    if not ok:
+    if not ok and not st.get('position_dependent'):
         print(f'HARNESS-NONDETERMINISM property={prop} {core.jdump(st)}')
         return EXIT_HARNESS
 
-    # violations: one representative per signature
+    # violations: one representative per signature, confirmed in a clean child
     exit_code = EXIT_OK
     by_sig = collections.OrderedDict()
     for run, case, viols in sorted(agg['fail'], key=lambda x: x[0]):
         for v in viols:
-            e = by_sig.setdefault(v['sig'], {'runs': [], 'case': None, 'v': None})
+            e = by_sig.setdefault(v['sig'], {'runs': [], 'cases': [], 'v': None})
             e['runs'].append(run)
-            if e['case'] is None and case is not None and 'oracle' in v:
-                e['case'], e['v'] = case, v
+            if case is not None and 'oracle' in v and len(e['cases']) < 4:
+                e['cases'].append((case, v))
     reports = []
+    unreproducible = 0
     for sig, e in by_sig.items():
-        if e['case'] is None:
+        chosen = None
+        for case, v in e['cases']:
+            if fails_with(mod, case, sig):
+                chosen = (case, v)
+                break
+            unreproducible += 1
+        if chosen is None:
+            # seen only inside a worker that had executed other runs before: state leaked between runs
+            reports.append({'sig': sig, 'known': False, 'runs': len(e['runs']), 'reproducible_in_isolation': False})
             continue
-        small = minimise(mod, e['case'], sig)
-        path, doc = write_replay(mod, small, e['v'], tag=str(abs(hash(sig)) % 10 ** 6) if False else core.digest(sig)[:6])
+        small = minimise(mod, chosen[0], sig)
+        path, doc = write_replay(mod, small, chosen[1], tag=core.digest(sig)[:6])
         repro, rout = replay_in_fresh_process(path)
         known = match_known(prop, sig)
         if not repro:
@@ -411,6 +485,19 @@ def run_batch(prop, tier, master, nruns, workers, wall_cap_s, selftest_n):
             print(f'  failing runs in this batch: {len(e["runs"])} (first run index {e["runs"][0]}); seed={master}')
             exit_code = EXIT_VIOLATION
             reports.append({'sig': sig, 'known': False, 'runs': len(e['runs']), 'replay': path})
+    if not ok:
+        # runs are deterministic in isolation but depend on what the process executed before
+        if exit_code == EXIT_VIOLATION:
+            print(f'NOTE property={prop}: run outcomes depend on their position in the batch (state carried from one '
+                  f'execution to the next inside a process) - consistent with the violation(s) above; {core.jdump(st)}')
+        else:
+            print(f'HARNESS-NONDETERMINISM property={prop} runs depend on batch position but no violation reproduces in '
+                  f'isolation: {core.jdump(st)}')
+            return EXIT_HARNESS
+    elif unreproducible and exit_code == EXIT_OK and any(not r.get('reproducible_in_isolation', True) for r in reports):
+        print(f'HARNESS-ERROR property={prop} {unreproducible} failing run(s) did not reproduce in a clean process although '
+              f'the determinism self-test passed')
+        return EXIT_HARNESS
 
     wall = time.time() - t0
     stats = dict(agg['stats'])
